@@ -1,6 +1,7 @@
 import GoRes.Model.Pool
 import GoRes.Lemmas.Pool
 import GoRes.Lemmas.PoolHB
+import GoRes.Model.Discipline
 /-! # C16 — no data race under any concurrent use the API permits (partial)
 
 What is logic here: every action of the pool model is one critical section of the service
@@ -85,7 +86,50 @@ theorem finished_at_most_once (acts : List Act) (s : St) (h : run init acts = so
     (hd : (s.accepted.map (·.2)).Nodup) : s.finished.Nodup :=
   finished_nodup (Inv.reachable h) (InvHB.reachable h) hd
 
+/-! ## access discipline of the library's own shared state, re-proved against the source on every run
+
+`Generated/Access.lean` lists every read and write of a field of `Service`, `work` and `queryEvent`
+found in /repo's current source, with the mutex state at that point and whether it is an atomic
+operation; `Model/Discipline.lean` gives each field its synchronisation policy.  The theorems are
+closed by kernel evaluation over the regenerated table, so a change of the source that moves an
+access out of the mutex, turns an atomic access into a plain one, adds a writer outside the set-up
+functions, or touches the connection fields after the service counts as started, makes them fail. -/
+
+open GoRes.Discipline in
+/-- **every access to shared state obeys the policy of its field** (mutex held, atomic, set-up only,
+or lifecycle-ordered) -/
+theorem discipline : ∀ a ∈ Generated.accesses, accOk a = true := by
+  decide +kernel
+
+open GoRes.Discipline in
+/-- no field of the three structs is left without a policy: a new field must be classified -/
+theorem every_field_classified :
+    ∀ sf ∈ Generated.structFields, ∀ f ∈ sf.2, fieldClassified sf.1 f = true := by
+  decide +kernel
+
+/-- a function analysed as "entered with the mutex held" really is called only with it held -/
+theorem locked_entry_justified :
+    ∀ c ∈ Generated.calls, Generated.entryLocked.contains c.1 = true → c.2.2 = "L" := by
+  decide +kernel
+
+open GoRes.Discipline in
+/-- the start/stop state machine orders the unguarded accesses: `serve` writes everything the workers
+read before it starts them and publishes `stateStarted` only afterwards, and neither `serve` (from
+then on) nor `subscribe` touches what a concurrent `Shutdown` clears; `Shutdown` begins with its CAS
+and publishes `stateStopped` last -/
+theorem lifecycle_order :
+    (Generated.sourceOrder.lookup "Service.serve").map serveOrderOk = some true ∧
+    (Generated.sourceOrder.lookup "Service.subscribe").map subscribeOrderOk = some true ∧
+    (Generated.sourceOrder.lookup "Service.Shutdown").map shutdownOrderOk = some true := by
+  decide +kernel
+
 /-! ## non-vacuity -/
+open GoRes.Discipline in
+example : (Generated.accesses.filter (fun a => Acc.lock a == "L")).length ≥ 10 ∧
+    accOk ("Service", "rwork", "Service.serve", "w", "U") = false ∧
+    accOk ("Service", "nc", "Service.subscribe", "r", "U") = false ∧
+    accOk ("queryEvent", "expired", "queryEvent.handleQueryRequest", "r", "U") = false := by decide +kernel
+
 example : ∃ s, run init [.serve 1, .subCheck 1 7 1 true, .subLock 1, .subSignal 1, .wStart 0,
     .subCheck 2 7 2 true, .subLock 2, .wDone 0] = some s ∧ cbsOf 7 s.started = [1, 2] ∧ s.finished = [1] := by
   refine ⟨_, rfl, ?_⟩; decide
